@@ -112,6 +112,7 @@ Definition apply_op (ins : list darr) (o : op) (a : darr) : res value :=
                                     aattrs := aattrs ax; amem := amem ax |} (axes a)) (vals a) (attrs a)))
   | OSetDims ns =>
       if negb (List.length ns =? List.length (axes a)) then Err ValueError
+      else if negb (distinct_str ns) then Err ValueError
       else if existsb (String.eqb "") ns then Err ValueError
       else Ok (VArr (mkarr (map (fun p => with_name (fst p) (snd p)) (combine (axes a) ns)) (vals a) (attrs a)))
   | OIdentity => Ok (VArr a)
